@@ -219,22 +219,24 @@ func IsAvcBoundary(pkt RtpPacket) bool {
 		avc.NaluTypeIdrSlice: {},
 	}
 
-	// TODO(chef): [fix] 检查数据长度有效性 202211
 	b := pkt.Body()
+	if len(b) == 0 {
+		return false
+	}
 	outerNaluType := avc.ParseNaluType(b[0])
 
 	if _, ok := boundaryNaluTypes[outerNaluType]; ok {
 		return true
 	}
 
-	if outerNaluType == NaluTypeAvcStapa {
+	if outerNaluType == NaluTypeAvcStapa && len(b) > 3 {
 		t := avc.ParseNaluType(b[3])
 		if _, ok := boundaryNaluTypes[t]; ok {
 			return true
 		}
 	}
 
-	if outerNaluType == NaluTypeAvcFua {
+	if outerNaluType == NaluTypeAvcFua && len(b) > 1 {
 		t := avc.ParseNaluType(b[1])
 		if _, ok := boundaryNaluTypes[t]; ok {
 			if b[1]&0x80 != 0 {
@@ -261,15 +263,17 @@ func IsHevcBoundary(pkt RtpPacket) bool {
 		hevc.NaluTypeSliceRsvIrapVcl23: {},
 	}
 
-	// TODO(chef): [fix] 检查数据长度有效性 202211
 	b := pkt.Body()
+	if len(b) == 0 {
+		return false
+	}
 	outerNaluType := hevc.ParseNaluType(b[0])
 
 	if _, ok := boundaryNaluTypes[outerNaluType]; ok {
 		return true
 	}
 
-	if outerNaluType == NaluTypeHevcFua {
+	if outerNaluType == NaluTypeHevcFua && len(b) > 2 {
 		t := b[2] & 0x3F // 注意，这里是后6位，不是中间6位
 		if _, ok := boundaryNaluTypes[t]; ok {
 			if b[2]&0x80 != 0 {
